@@ -49,6 +49,25 @@ fn udp_systems(tier: Tier) -> Vec<(UdpSys, Limits, bool)> {
             Limits { max_depth: 64, max_states: 5_000_000, max_wall_s: wall, threads: th },
             true,
         ),
+        (
+            // IPv4 hosts served through the dual-stack IPv6 socket alone: the IPv4 maps are in use with `use_ipv4 = false`
+            UdpSys(Alphabet {
+                name: "udp-time-v6-socket-serves-v4",
+                opts: WorldOpts { hashes: vec![0], families: vec![true, false], v6_socket_serves_v4: true, ..Default::default() },
+                keys: 1,
+                kinds: vec![Kind::Leech, Kind::Seed, Kind::Stop0],
+                pids: None,
+                ages: vec![1, 2],
+                lags: vec![0, 1],
+                numwants: vec![0],
+                scrapes: vec![],
+                clock_max: 4,
+                reloads: vec![],
+                clean: true,
+            }),
+            Limits { max_depth: 64, max_states: 5_000_000, max_wall_s: wall, threads: th },
+            true,
+        ),
     ]
 }
 
